@@ -8,12 +8,13 @@ Known(r) == r.fault \in FaultNames /\ r.situation \in Situations /\ r.form \in F
 CaseOf(r) == [fault |-> r.fault, situation |-> r.situation, form |-> r.form]
 \* a record the reference has no row for is skipped and counted (ref_undefined), never failed
 RecOk(r) == ~Known(r) \/ OutcomeOk(CaseOf(r), r.outcome)
-\* root cause: the instruction class at which the fault surfaces, except for the two causes that do not depend
-\* on the instruction (a defer in a function literal of a template; a Scriggo function called back from native code)
-Cause(r) == LET f == FaultByName(r.fault) IN
-            IF RendererLost(CaseOf(r)) THEN "defer-in-template-function"
-            ELSE IF f.nested = "panics" THEN "callback-vm"
-            ELSE f.op
+\* root cause (signature only): the instruction class at which the fault surfaces / the callback machine; the
+\* renderer lost after a defer in a function literal of a template is named only when, according to the
+\* implementation-shaped model, the fault by itself would not have reached the host
+Cause(r) == LET f == FaultByName(r.fault)
+                own == IF f.nested = "panics" THEN "callback-vm" ELSE f.op IN
+            IF RendererLost(CaseOf(r)) /\ ModelOutcomeWith(CaseOf(r), FALSE) # "hostpanic" THEN "defer-in-template-function"
+            ELSE own
 Sig(r) == IF Known(r) THEN [fam |-> "faults", fault |-> FaultByName(r.fault).class, cause |-> Cause(r)]
           ELSE [fam |-> "faults", fault |-> r.fault, cause |-> "unknown-case"]
 
